@@ -186,7 +186,11 @@ class CondGen(object):
                 pass
         elif k == 'ifdim':
             a, va = self.dim_operand()
-            if r.random() < 0.3:
+            if r.random() < 0.12:
+                # whole numbers of scaled points (exact in TeX and in binary floating point alike): operands a few sp apart differ
+                a, b = ['%dsp' % r.choice([0, 1, 2, 3, 5, 7, 10, 65536, 65539]) for _ in range(2)]
+                self.features.add('ifdim-scaled-point-literals')
+            elif r.random() < 0.3:
                 b, vb = a, va
             else:
                 b, vb = self.dim_operand()
